@@ -4,7 +4,7 @@ from .floatlib import *
 
 
 def special_run(name="special"):
-    return run_tlc("Special.tla", cfg(invariants=["FiniteWhereSmooth", "SeriesWellDefined", "ExportSeries"]), name,
+    return run_tlc("Special.tla", cfg(invariants=["FiniteWhereSmooth", "SeriesWellDefined", "ExportSeries", "ExportBesselClasses"]), name,
                    workers=4, timeout=900)
 
 
